@@ -10,6 +10,8 @@ def nontrivial(case):
         return len(inp["A"]["nzval"]) >= 1
     if case["op"] == "concat":
         return sum(len(b["nzval"]) for b in inp["blocks"]) >= 1
+    if case["op"] == "hvgrid":
+        return sum(len(b["nzval"]) for r in inp["rows"] for b in r) >= 1
     if case["op"] == "triplets":
         return len(inp["V"]) >= 1
     if case["op"] == "raw":
@@ -33,12 +35,25 @@ def diagnose(chk, case):
 
 SPEC = {
     "props_file": "C16.v",
-    "targets": ["theories/Props/C16.vo", "theories/Csc/Check.vo"],
+    "targets": ["theories/Props/C16.vo", "theories/Csc/Check.vo", "theories/Csc/Examples.vo"],
     "header": HEADER,
     "harness_prop": "c16",
+    # a shard of ~5 500 thorough cases makes coqc use ~7 GB (1 000 cases: ~1.5 GB); 16 big ones do not fit in memory
+    "per_shard": 1000,
     "nontrivial": nontrivial,
     "diagnose": diagnose,
-    "rule": "cases = (operation bundle, input matrix) pairs: exhaustive enumeration of all matrices of the listed small shapes over the listed value sets, all ordered triplet sequences up to the stated length, all pairs of <=2x2 blocks, plus seeded random larger shapes and malformed encodings; a case is non-trivial when its input stores at least one entry; distinct = distinct (op,input) JSON",
+    "rule": ("cases = (operation bundle, input) pairs. Exhaustive part: every matrix of shape 0x0, 0x2, 2x0, 1x1, 1x2, 2x1, "
+             "1x3, 3x1, 2x2 over {absent,1,-1,2} and 2x3, 3x2 over {absent,1,-1}; 3x3 over {absent,1,-1}: every 4th code in "
+             "quick (4 921 of 19 683), all in thorough (which adds 2x3/3x2 over four values and lattice samples of 4x3 and "
+             "3x3 over four values); every ordered triplet sequence of length <= 3 (thorough: 4) over a 2x2 grid with values "
+             "{1,-1,2}; ordered pairs of the 105 blocks of shape <= 2x2 over {absent,1,-1} (quick: every 8th pair, thorough: "
+             "all); identity/zeros for n <= 5. Seeded random part: matrices up to 40x40 with stored zeros and empty "
+             "rows/columns, 2x2 block layouts, R x C block grids with R,C <= 3 (one in four shape-inconsistent, plus the "
+             "degenerate layouts), triplet lists, raw encodings (canonical, unsorted with duplicates, malformed colptr / "
+             "lengths / row indices). Each single-matrix bundle runs every operation named in the property on that matrix "
+             "(incl. symv, quad_form and col_norms_sym on its upper triangle, set_entry on absent and stored positions with "
+             "zero and nonzero values, select_rows with all/no/some rows). A case is non-trivial when its input stores at "
+             "least one entry; distinct = distinct (op,input) JSON"),
     "level": "proof",
     "explanation": "Unbounded Coq theorems (Props/C16.v) state that each operation of the Gallina CSC model has the dense meaning and preserves canonical form, for every matrix over any commutative ring. The model is tied to the Rust code by running both on the same inputs (exact arithmetic: i64 / small-integer f64) and comparing canonical-form + dense equality inside Coq by vm_compute.",
     "assumptions": ["f64 arithmetic on small integers is exact (exactness domain)", "usize overflow is not modelled"],
